@@ -268,6 +268,19 @@ func runWorld(spec *Spec, ch *sim.Choices, res *Result, uniq string) {
 			p.SegMode = []int{sim.SegWhole, sim.SegRandom, sim.SegSmall, sim.SegOne}[spec.Variant%4]
 			p.LatMode = spec.Variant % 3
 		}
+		if p.Proto == "tcp" {
+			tw := worlds.NewTCP(s, p)
+			if err := tw.Setup(); err != nil {
+				res.Infra = "setup: " + err.Error()
+				return
+			}
+			s.Run(tw.Done)
+			if !tw.Done() {
+				res.Infra = "run ended before the final check: " + s.Stopped
+			}
+			finish(tw.Stats, tw.Nontrivial(), p)
+			return
+		}
 		w := worlds.NewProxy(s, spec.Prop, p)
 		if err := w.Setup(); err != nil {
 			res.Infra = "setup: " + err.Error()
